@@ -111,8 +111,10 @@ class VC:
 class QHyp:
     """universally quantified hypothesis: instantiated at ground terms when discharged"""
 
-    def __init__(self, vars_, body, label=''):
-        self.vars, self.body, self.label = list(vars_), body, label
+    def __init__(self, vars_, body, label='', triggers=None):
+        # triggers: [(func_decl, arg_index)] -> the single variable is instantiated with that argument of every
+        # application of func_decl occurring in the problem (single-pattern E-matching done by the generator)
+        self.vars, self.body, self.label, self.triggers = list(vars_), body, label, triggers
 
 
 # ----------------------------------------------------------------------------- state
@@ -233,6 +235,8 @@ class SpecCtx:
 
     def loc(self, name, view=None):
         view = view or self.cur
+        if name == '__filtered':
+            name = [k for k in view.env if k.startswith('__filtered')][-1]
         v = view.env[name]
         if isinstance(v, C):
             return _read_loc_view(view, v.loc)
@@ -286,6 +290,17 @@ class Exec:
             for key in declared:
                 if isinstance(key, str) and head.startswith(key):
                     self.loop_keys[id(n)] = key
+        # an edited loop header: when exactly one declared key and exactly one loop are left over, pair them
+        # (the invariant then judges the edited loop); anything more ambiguous is contract drift
+        skeys = [k2 for k2 in declared if isinstance(k2, str)]
+        if skeys:
+            free_keys = [k2 for k2 in skeys if k2 not in self.loop_keys.values()]
+            free_loops = [n for n in order if id(n) not in self.loop_keys and not any(isinstance(d, int) for d in declared)]
+            if len(free_keys) == 1 and len(free_loops) == 1:
+                self.loop_keys[id(free_loops[0])] = free_keys[0]
+            elif free_keys and free_loops:
+                raise Unsupported('loops of %s no longer match the contract: unmatched specs %s, unmatched loops %s'
+                                  % (self.qual, free_keys, [_loop_head(n)[:40] for n in free_loops]))
         for i in declared:
             if isinstance(i, int) and i >= len(order):
                 raise Unsupported('contract names loop %d but %s has %d loops' % (i, self.qual, len(order)))
@@ -440,7 +455,10 @@ class Exec:
     def _clauses(self, fn, c):
         if fn is None:
             return {}
-        r = fn(c)
+        try:
+            r = fn(c)
+        except KeyError as e:
+            raise Unsupported('specification of %s refers to %s which the edited function no longer has' % (self.qual, e))
         if r is None:
             return {}
         if isinstance(r, dict):
@@ -587,6 +605,9 @@ class Exec:
     def ty_of(self, v):
         if isinstance(v, (V, C)):
             return v.ty
+        et = self.world.enum_of(v)
+        if et is not None:
+            return et
         if isinstance(v, bool):
             return BOOL
         if isinstance(v, int):
@@ -828,6 +849,8 @@ class Exec:
                 lt = self.world.local_type(self, tgt.id, v)
                 if lt is not None and not isinstance(v, (V, C)) and self.depth == 0:
                     v = self.wrap(self.to_z3(v, lt), lt)
+                elif lt is not None and isinstance(v, V) and isinstance(v.ty, Opt) and not isinstance(lt, Opt) and self.depth == 0:
+                    v = self.unwrap(v, line)
                 self.st.env[tgt.id] = v
         elif isinstance(tgt, (ast.Tuple, ast.List)):
             parts = self.unpack(v, len(tgt.elts), line)
@@ -1598,6 +1621,17 @@ class Exec:
             raise Unsupported('iteration over %r' % (src,))
         self.loop_cut(s, coll, filt, fmap)
 
+    def register_synth_loop(self, loop):
+        if id(loop) in self.loops:
+            return
+        self._synth = getattr(self, '_synth', [])
+        self._synth.append(loop)        # keep alive: ids must stay unique
+        self.loops[id(loop)] = 1000 + loop.lineno
+        head = _loop_head(loop)
+        for key in (getattr(self.k, 'loops', {}) or {}):
+            if isinstance(key, str) and head.startswith(key):
+                self.loop_keys[id(loop)] = key
+
     def loop_spec(self, s):
         idx = self.loops[id(s)]
         declared = getattr(self.k, 'loops', {}) or {}
@@ -1934,6 +1968,8 @@ class Exec:
                 args[nm] = self.to_z3(v, ty)
             else:
                 args[nm] = v
+        if getattr(kc, 'on_call', None) is not None:
+            kc.on_call(self, args, line)       # ghost update at the call point (DESIGN §2.2 "Ghost state")
         old = self.st.snap()
         c0 = SpecCtx(self, args, old, old)
         c0.sks = self.prove_ctx.sks
